@@ -12,6 +12,7 @@ parameters, all batch sizes and all batch partitions.
 import SharkVerif.Lemmas.Kernels
 import SharkVerif.Lemmas.KernelsPSD
 import SharkVerif.Lemmas.KernelDerivs
+import SharkVerif.Lemmas.KernelDerivsArd
 import Mathlib.Algebra.BigOperators.Group.List.Basic
 import Mathlib.Algebra.BigOperators.Ring.List
 import Mathlib.Algebra.Order.BigOperators.Group.List
@@ -844,5 +845,45 @@ theorem subrangeKernel_psd (sqrt : ℝ → ℝ) (ps : List ℝ) (terms : List (N
   | cons t ts ih =>
     simp only [List.map_cons, AdmissibleList, Admissible]
     exact ⟨h t (List.mem_cons_self), ih fun t' ht' => h t' (List.mem_cons_of_mem _ ht')⟩
+
+end SharkVerif.C05
+
+
+/-! ## 10. Derivatives of ARDKernelUnconstrained (parameters log γ) and ScaledKernel -/
+namespace SharkVerif.C05
+open SharkVerif.Kernels
+
+/-- `ARDKernelUnconstrained::weightedParameterDerivative`: entry `t` is the derivative of the weighted sum of
+kernel values with respect to the parameter `η_t = log γ_t` — for all block sizes, in the C++ loop order. -/
+theorem ard_weightedParameterDerivative (sqrt : ℝ → ℝ) (gs : List ℝ) (t : ℕ) (η₀ : ℝ) (ht : t < gs.length)
+    (hγ : gs.getD t 0 = Real.exp η₀) (C X1 X2 : Mat ℝ)
+    (hx : ∀ x ∈ X1, t < x.length) (hz : ∀ z ∈ X2, t < z.length) :
+    HasDerivAt (fun η => weightedSum ((Kern.ard (gs.set t (Real.exp η))).eval Real.exp sqrt) C X1 X2)
+      ((ardParamDeriv Real.exp gs C X1 X2 (gs.map fun _ => 0)).getD t 0) η₀ :=
+  ard_param_hasDerivAt sqrt gs t η₀ ht hγ C X1 X2 hx hz
+
+/-- `ARDKernelUnconstrained::weightedInputDerivative`, row `i`, coordinate `t` -/
+theorem ard_weightedInputDerivative (sqrt : ℝ → ℝ) (gs : List ℝ) (crow : List ℝ) (x : Point ℝ) (X2 : Mat ℝ) (t : ℕ)
+    (ht : t < gs.length) (hx : t < x.length) (hz : ∀ z ∈ X2, t < z.length) :
+    HasDerivAt (fun s => sumRow (fun c z => c * (Kern.ard gs).eval Real.exp sqrt (x.set t s) z) crow X2)
+      ((ardInputRow Real.exp gs crow x X2).getD t 0) (x.getD t 0) :=
+  ard_input_hasDerivAt sqrt gs crow x X2 t ht hx hz
+
+/-- `ScaledKernel::weightedParameterDerivative` / `weightedInputDerivative` (`gradient *= m_factor`): if `G` is the
+derivative of the base kernel's weighted sum (in any parameter or input coordinate `p`), `G · factor` is the
+derivative of the scaled kernel's weighted sum. -/
+theorem scaled_weightedDerivative (exp sqrt : ℝ → ℝ) (factor : ℝ) (k : ℝ → Kern ℝ) (C X1 X2 : Mat ℝ) (G p : ℝ)
+    (h : HasDerivAt (fun q => weightedSum ((k q).eval exp sqrt) C X1 X2) G p) :
+    HasDerivAt (fun q => weightedSum ((Kern.scaled factor (k q)).eval exp sqrt) C X1 X2) (G * factor) p := by
+  have e : (fun q => weightedSum ((Kern.scaled factor (k q)).eval exp sqrt) C X1 X2) =
+      fun q => factor * weightedSum ((k q).eval exp sqrt) C X1 X2 := by
+    funext q; exact weightedSum_scaled exp sqrt factor (k q) C X1 X2
+  rw [e]
+  exact scaled_hasDerivAt _ G p factor h
+
+/-- non-vacuity of `ard_weightedParameterDerivative`: γ = (1, e⁰) … a 1×1 block in dimension 2 -/
+example : HasDerivAt (fun η => weightedSum ((Kern.ard ([1, 1].set 1 (Real.exp η))).eval Real.exp Real.sqrt) [[2]] [[1, 2]] [[0, 1]])
+    ((ardParamDeriv Real.exp [1, 1] [[2]] [[1, 2]] [[0, 1]] ([1, 1].map fun _ => 0)).getD 1 0) 0 :=
+  ard_weightedParameterDerivative Real.sqrt [1, 1] 1 0 (by simp) (by simp) [[2]] [[1, 2]] [[0, 1]] (by simp) (by simp)
 
 end SharkVerif.C05
